@@ -122,11 +122,11 @@ def build_all(repo_copy, workdir, cc="gcc"):
 
 
 def harness_lines(exe, lines, cwd):
-    p = subprocess.run([exe], input="\n".join(lines) + "\n", stdout=subprocess.PIPE, stderr=subprocess.PIPE,
-                       text=True, cwd=cwd, timeout=600)
-    out = p.stdout.splitlines()
+    p = subprocess.run([exe], input=("\n".join(lines) + "\n").encode(), stdout=subprocess.PIPE, stderr=subprocess.PIPE,
+                       cwd=cwd, timeout=600)
+    out = p.stdout.decode("ascii", "replace").splitlines()
     if p.returncode != 0 or len(out) != len(lines):
-        raise RuntimeError(f"files harness answered {len(out)} lines for {len(lines)} (rc {p.returncode}): {p.stderr[-500:]}")
+        raise RuntimeError(f"files harness answered {len(out)} lines for {len(lines)} (rc {p.returncode}): {p.stderr[-500:]!r}")
     return out
 
 
